@@ -184,6 +184,7 @@ func runRev(tr *vtrace.Writer, c *Case) {
 	v := hertzView(q)
 	v["err"] = err != nil
 	tr.Emit("Copy", v)
+	tr.Emit("CopyLen", vtrace.Rec{"cl": v["cl"], "blen": len(v["body"].(string))})
 
 	// the copy as hertz puts it on a wire (a proxy forwarding the request), read back by net/http
 	q2 := &protocol.Request{}
